@@ -350,3 +350,10 @@ pub fn hb_ot_shape_complex_categorize(
         _ => &DEFAULT_SHAPER
     }
 }
+
+/// Verification hooks (compiled only with `--cfg rb_verif`).
+#[cfg(rb_verif)]
+#[allow(unused_imports, dead_code, missing_docs)]
+pub mod verif_hooks {
+    use super::*;
+}
